@@ -71,6 +71,10 @@ type Options struct {
 	Stall                 time.Duration // fake time without non-daemon progress that counts as deadlock (0 = 2h)
 	NoAdvanceWhileEnabled bool          // never choose "advance time" while some task is enabled
 	KeepSchedule          bool          // record every step (for replay files)
+	// StallAt, when set, is asked every time a task parks at a yield point; a positive answer keeps
+	// the task parked for that much fake time (a slow or descheduled goroutine: a fault the scenario
+	// places, not a choice of the tape)
+	StallAt func(task, point string) time.Duration
 }
 
 // ErrDeadlock is returned by Run when unfinished non-daemon tasks exist, none is enabled and
@@ -247,7 +251,23 @@ func (s *Sim) Yield(point string, guard func() bool) {
 	if t == nil {
 		t = s.register("auto:"+point, true)
 	}
+	name := t.Name
 	s.mu.Unlock()
+	if s.opt.StallAt != nil && t.ID >= 0 {
+		if d := s.opt.StallAt(name, point); d > 0 {
+			until := time.Now().Add(d)
+			inner := guard
+			guard = func() bool { return !time.Now().Before(until) && (inner == nil || inner()) }
+			// a timer of its own, so that the clock can move to the end of the stall when nothing else is due
+			time.AfterFunc(d, func() {
+				select {
+				case s.kick <- struct{}{}:
+				default:
+				}
+			})
+			s.Logf("stall %s@%s %v", name, point, d)
+		}
+	}
 	s.park(t, point, guard)
 }
 
